@@ -1294,6 +1294,9 @@ func (e *Engine) valEq(st *State, a, b Val) string {
 			return e.valEq(st, b, a)
 		}
 	case *StructV:
+		if y, ok := b.(*IfaceV); ok && y.Dyn != nil {
+			return e.valEq(st, a, y.V)
+		}
 		if y, ok := b.(*StructV); ok {
 			var parts []string
 			for i := range x.F {
@@ -1303,6 +1306,10 @@ func (e *Engine) valEq(st *State, a, b Val) string {
 		}
 	case *IfaceV:
 		switch y := b.(type) {
+		case *StructV:
+			if x.Dyn != nil {
+				return e.valEq(st, x.V, y)
+			}
 		case *IfaceV:
 			if x.Dyn == nil || y.Dyn == nil {
 				if x.Dyn == nil && y.Dyn == nil {
